@@ -510,7 +510,7 @@ def check(ctx):
     table_check(ctx)
     ctx.prove(MODULES)
     try:
-        run(ctx, 700 if ctx.thorough else 90)
+        run(ctx, 6000 if ctx.thorough else 1500)
     except fv.InfraError:
         if not ctx.proof_failures:
             raise
